@@ -1,7 +1,7 @@
 (* C02 — non-vacuity examples and sanity evaluations. *)
 From Coq Require Import ZArith List Bool String Lia.
 Import ListNotations.
-From GV Require Import Common.Wire gen.Gen_tables C12.Model C02.Model C02.Lemmas.
+From GV Require Import Common.Wire gen.Gen_tables C12.Model gen.Gen_codecs C02.CodecModel C02.Model C02.Lemmas.
 Open Scope Z_scope.
 
 (* ---- naming: labels that collide with disambiguated names.  "a" = [97], "a_0" = [97;95;48] *)
@@ -58,3 +58,30 @@ Example exempt_in_table : forallb (fun s => existsb (fun c => String.eqb (name_o
 Proof. vm_compute. reflexivity. Qed.
 Eval vm_compute in (List.length (filter in_scope classes)).
 Eval vm_compute in (map (fun c => name_of (c_id c)) (filter (fun c => in_scope c && negb (pair_ok c)) classes)).
+
+(* ---- field-level codec table: non-vacuity.  The table has rows; the by-value record of a CategoricalComponent carries its
+   category list unconditionally (written on the by-value path, value not depending on a test); a loader path reads it. *)
+Local Open Scope string_scope.
+Definition cid_of (s : string) : Z := match find (fun p => String.eqb (snd p) s) cnames with Some p => fst p | None => -1 end.
+Example codec_tables_nonempty : ((40 <=? Z.of_nat (List.length saver_codecs)) && (40 <=? Z.of_nat (List.length loader_codecs)))%Z = true.
+Proof. vm_compute. reflexivity. Qed.
+Example codec_categorical_categories :
+  codec_query (cid_of "glue.core.component.CategoricalComponent") 1 (cid_of "categories") = [0; 1; 0].
+Proof. vm_compute. reflexivity. Qed.
+Example codec_categorical_by_value_path :
+  existsb (fun sc => Z.eqb (sc_cls sc) (cid_of "glue.core.component.CategoricalComponent") &&
+     existsb (fun p => memZ (cid_of "categories") (spath_keys p) && memZ (cid_of "categorical_data") (spath_keys p)
+                       && negb (memZ (cid_of "log") (spath_keys p))) (sc_paths sc)) saver_codecs = true.
+Proof. vm_compute. reflexivity. Qed.
+Example codec_categorical_loader_reads :
+  existsb (fun lc => Z.eqb (lc_cls lc) (cid_of "glue.core.component.CategoricalComponent") &&
+     existsb (fun b => memZ (cid_of "categories") (lp_reads b) && memZ (cid_of "log") (lp_absent b)
+                       && match lp_ctor b with Some args => existsb (fun a => Z.eqb (fst a) (cid_of "categories") && snd a) args | None => false end)
+             (lc_paths lc)) loader_codecs = true.
+Proof. vm_compute. reflexivity. Qed.
+(* a compatible (saver path, loader path) pair with reads exists, so codec_reads_written is not vacuous *)
+Example codec_reads_nonvacuous :
+  existsb (fun sc => existsb (fun lc => same_codec sc lc && existsb (fun p => existsb (fun b =>
+      negb (sp_dynamic p) && negb (lp_dynamic b) && compatible p b && (3 <=? Z.of_nat (List.length (lp_reads b)))%Z) (lc_paths lc)) (sc_paths sc))
+    loader_codecs) saver_codecs = true.
+Proof. vm_compute. reflexivity. Qed.
